@@ -91,6 +91,17 @@ def scenario(draw) -> Dict[str, Any]:
                {'op': 'tick', 'ms': draw(st.sampled_from([1000, 40000, 600000]))},
                {'op': 'learn', 'type': 0, 'inst': 1, 'sp': 0, 'ttl': draw(st.sampled_from([1, 1200, 2000]))}] + ops
     if draw(st.integers(0, 5)) == 0:
+        # a service that is withdrawn and comes back within one inter-query delay of its first sighting (a quick restart): the new
+        # 75 % point lies inside the window in which the scheduler keeps an entry it already has - here one that was cancelled
+        d0 = browsers[0]['delay'] * 1000
+        a = draw(st.sampled_from([10, 200, d0 // 4, d0 // 2]))
+        b = draw(st.sampled_from([10, 200, d0 // 4, d0 // 2 - 20]))
+        ttl = draw(st.sampled_from([1, 1200, 4500]))
+        ops = [{'op': 'tick', 'ms': 15000}, {'op': 'learn', 'type': browsers[0]['types'][0], 'inst': 0, 'sp': 0, 'ttl': ttl, 'repeat': 0},
+               {'op': 'tick', 'ms': a}, {'op': 'learn', 'type': browsers[0]['types'][0], 'inst': 0, 'sp': 0, 'ttl': 0, 'repeat': 0},
+               {'op': 'tick', 'ms': max(1, b)}, {'op': 'learn', 'type': browsers[0]['types'][0], 'inst': 0, 'sp': draw(st.sampled_from([0, 0, 1])),
+                                                 'ttl': draw(st.sampled_from([ttl, 4500])), 'repeat': 0}] + ops
+    if draw(st.integers(0, 5)) == 0:
         # two or three instances learned from one datagram; after their common 75 % query one of them is refreshed or withdrawn and
         # the others stay silent: they still have to be asked for at 85 % and 95 %
         ttl = draw(st.sampled_from([1, 1200, 4500]))
